@@ -11,21 +11,25 @@ from vmc import core, formats, space
 PROPERTY = "C19"
 ENGINE = "E1 schema-space"
 RULE = ("every dataclass tree of depth 2 and 3 (child in a field, List, Dict value, Optional, Tuple, Union at each member position, nested "
-        "list of unions) whose classes all carry the four hooks x ADD_SERIALIZATION_CONTEXT opt-in masks x class kind (mixin / plain) x entry "
+        "list of unions, variants of a class-level discriminator hierarchy that inherit the hooks and are reached through the base) whose classes all carry the four hooks x ADD_SERIALIZATION_CONTEXT opt-in masks x class kind (mixin / plain) x entry "
         "points (mixin, Basic codec, JSON / orjson / msgpack / yaml codecs, orjson and msgpack mixins) x leaf member values: the serialize "
         "hook trace must equal the pre/post-order traversal, hook return values must be used exactly once (each hook leaves one mark), the "
         "post-deserialize multiset must equal the instances of the result, pre- before post-deserialize, and the context object must reach "
         "exactly the opted-in nodes whose ancestors all opted in. Non-trivial: the tree has >= 2 hooked instances.")
 ASSUMPTIONS = ["hooks mark their effect: pre_serialize appends '!' to tag, post_serialize counts in '_post', pre_deserialize appends '?', "
-               "post_deserialize appends '$'", "context is only passable through mixin to_dict (codecs have no context argument)"]
+               "post_deserialize appends '$'", "context is only passable through mixin to_dict (codecs have no context argument)",
+               "discriminator-hierarchy shapes: codec encoders and format-mixin to_<format> methods serialize a field by its annotated class, so these entry points are exercised on "
+               "the deserialization side only there, on the document prescribed by the marks"]
 UNIT_TIMEOUT = 600
 CHUNK = 4
 SHAPES = ("direct", "list", "dict", "opt", "tuple", "unionAB", "unionBA", "listunion", "unionint")
+# leaf classes as variants of a class-level discriminator hierarchy that inherit the four hooks from its base, reached through the base
+DSHAPES = ("dbase", "dlist")
 KINDS = ("mixin", "plain", "orjson", "msgpack")
 
 
 def bounds(tier):
-    return dict(tier=tier, shapes=list(SHAPES), depths=[2, 3], class_kinds=list(KINDS), context_masks="all subsets of {Root, Mid, A, B}",
+    return dict(tier=tier, shapes=list(SHAPES + DSHAPES), depths=[2, 3], class_kinds=list(KINDS), context_masks="all subsets of {Root, Mid, A, B}",
                 other_flags=["nested classes only", "root only", "mixed"],
                 entry_points=["mixin", "basic", "json", "orjson", "msgpack", "yaml", "orjson-mixin", "msgpack-mixin"])
 
@@ -33,12 +37,16 @@ def bounds(tier):
 def units(tier):
     out = []
     for kind in KINDS:
-        for s1 in SHAPES:
+        for s1 in SHAPES + DSHAPES:
             for mask in range(8):      # Root, A, B opt-in bits
+                if s1 in DSHAPES and bool(mask & 2) != bool(mask & 4):
+                    continue           # the variants inherit hooks and opt-in from one base
                 out.append((kind, 2, s1, None, mask))
-        for s1, s2 in itertools.product(SHAPES, repeat=2):
+        for s1, s2 in itertools.product(SHAPES, SHAPES + DSHAPES):
             masks = range(16) if tier == "thorough" else (0, 15, 9, 5)
             for mask in masks:        # Root, Mid, A, B
+                if s2 in DSHAPES and bool(mask & 4) != bool(mask & 8):
+                    continue
                 out.append((kind, 3, s1, s2, mask))
     # other keyword flags enabled on some of the classes only (nested-only, root-only, mixed)
     for s1 in SHAPES:
@@ -86,6 +94,7 @@ def shape_type(shape, child):
         "unionBA": f"typing.Union[{two}, {one}]" if one != two else f"typing.Union[int, {one}]",
         "listunion": f"List[typing.Union[{one}, {two}]]" if one != two else f"List[typing.Union[{one}, str]]",
         "unionint": f"typing.Union[int, {one}, {two}]" if one != two else f"typing.Union[int, str, {one}]",
+        "dbase": "DBase", "dlist": "List[DBase]",
     }[shape]
 
 
@@ -109,6 +118,10 @@ def shape_values(shape, ones, twos):
         return [([t, o, t], [t, o, t])] if o is not t else [([o, "s"], [o])]
     if shape == "unionint":
         return [(7, []), (t, [t]), (o, [o])]
+    if shape == "dbase":
+        return [(o, [o]), (t, [t])]
+    if shape == "dlist":
+        return [([], []), ([t, o, t], [t, o, t])]
     raise ValueError(shape)
 
 
@@ -132,8 +145,21 @@ class Tree:
         else:
             on = dict(Root=bool(mask & 1), Mid=bool(mask & 2), A=bool(mask & 4), B=bool(mask & 8))
         self.on, self.depth, self.kind = on, depth, kind
-        self.ctx.run(f"@dataclass\nclass A{base}:\n    tag: str\n{_cfg(on['A'], leaf_x)}{_hooks('A', on['A'])}")
-        self.ctx.run(f"@dataclass\nclass B{base}:\n    tag: str\n    extra: int = 0\n{_cfg(on['B'], leaf_x)}{_hooks('B', on['B'])}")
+        if (s2 if depth == 3 else s1) in DSHAPES:
+            from mashumaro.types import Discriminator
+            ns["Discriminator"] = Discriminator
+            flags = list(leaf_x) + (["ADD_SERIALIZATION_CONTEXT"] if on["A"] else [])
+            hooks = _hooks("A", on["A"]).replace("'A'", "CLSNAME")
+            hooks = hooks.replace("LOG.append(('pre_s', CLSNAME", "LOG.append(('pre_s', type(self).__name__").replace(
+                "LOG.append(('post_s', CLSNAME", "LOG.append(('post_s', type(self).__name__").replace("CLSNAME", "cls.__name__")
+            self.ctx.run(f"@dataclass\nclass DBase{base}:\n    tag: str\n    class Config(BaseConfig):\n"
+                         f"        discriminator = Discriminator(field='kind', include_subtypes=True)\n"
+                         f"        code_generation_options = [{', '.join(flags)}]\n{hooks}")
+            self.ctx.run("@dataclass\nclass A(DBase):\n    kind: str = 'A'\n")
+            self.ctx.run("@dataclass\nclass B(DBase):\n    extra: int = 0\n    kind: str = 'B'\n")
+        else:
+            self.ctx.run(f"@dataclass\nclass A{base}:\n    tag: str\n{_cfg(on['A'], leaf_x)}{_hooks('A', on['A'])}")
+            self.ctx.run(f"@dataclass\nclass B{base}:\n    tag: str\n    extra: int = 0\n{_cfg(on['B'], leaf_x)}{_hooks('B', on['B'])}")
         if depth == 3:
             self.ctx.run(f"@dataclass\nclass Mid{base}:\n    tag: str\n    c: {shape_type(s2, 'AB')}\n{_cfg(on['Mid'], mid_x)}{_hooks('Mid', on['Mid'])}")
             self.ctx.run(f"@dataclass\nclass Root{base}:\n    tag: str\n    m: {shape_type(s1, 'Mid')}\n{_cfg(on['Root'], root_x)}{_hooks('Root', on['Root'])}")
@@ -195,6 +221,20 @@ def expected_trace(tree, root, case, context):
             tr.append(("post_s", "Mid", cv("Mid", mid_ok)))
     tr.append(("post_s", "Root", cv("Root", root_ok)))
     return tr
+
+
+def model_doc(x):
+    """the document the hooks' marks prescribe: every instance's own fields, tag + '!', one '_post' count."""
+    if dataclasses.is_dataclass(x) and not isinstance(x, type):
+        d = {f.name: model_doc(getattr(x, f.name)) for f in dataclasses.fields(x)}
+        d["tag"] += "!"
+        d["_post"] = 1
+        return d
+    if isinstance(x, dict):
+        return {k: model_doc(v) for k, v in x.items()}
+    if isinstance(x, (list, tuple)):
+        return [model_doc(v) for v in x]
+    return x
 
 
 def walk_marks(x, out):
@@ -261,6 +301,7 @@ def run_unit(unit, only=None):
             res.cases += 1
             V("build-failed", "build", -1, repr(e)[:300], type(e).__name__)
             return res
+        static_only = (tree.s2 if tree.depth == 3 else tree.s1) in DSHAPES
         for vi, case in enumerate(tree.values()):
             root = case[0]
             ninst = 1 + len(case[1])
@@ -274,13 +315,24 @@ def run_unit(unit, only=None):
                     res.cases += 1
                     res.transitions += 2
                     tree.log.clear()
-                    try:
-                        out = enc(root, context=context) if (takes_ctx and tree.on["Root"]) else enc(root)
-                    except Exception as e:   # noqa: BLE001
-                        V("serialize-raised", ep, vi, f"{e!r:.300}", type(e).__name__)
-                        continue
-                    got = list(tree.log)
-                    exp = expected_trace(tree, root, case, context if takes_ctx else None)
+                    if static_only and ep != "mixin":
+                        # a codec (and a format mixin's to_<format>, see F-FORMAT-MIXIN-SUBCLASS-FIELDS under C04) serializes a field by its
+                        # annotated class (DBase), not by the instance's class: these entry points are exercised on the deserialization
+                        # side, on the document the per-instance route (to_dict) produces
+                        out = model_doc(root)
+                        got = exp = []
+                    else:
+                        try:
+                            out = enc(root, context=context) if (takes_ctx and tree.on["Root"]) else enc(root)
+                        except Exception as e:   # noqa: BLE001
+                            V("serialize-raised", ep, vi, f"{e!r:.300}", type(e).__name__)
+                            continue
+                        got = list(tree.log)
+                        if static_only and out != model_doc(root):
+                            V("hook-return-not-used-once", ep, vi, f"output={out!r:.300} model={model_doc(root)!r:.300}", "serialize")
+                            continue
+                    if not (static_only and ep != "mixin"):
+                        exp = expected_trace(tree, root, case, context if takes_ctx else None)
                     if not takes_ctx:
                         # codecs have no context argument: opted-in hooks see the default None
                         exp = [(k, n, ("<noarg>" if c == "<noarg>" else None)) for k, n, c in exp]
